@@ -108,6 +108,11 @@ def new_dict(m: Any, e: ast.Dict, hint: str | None) -> V:
 
 
 def eval_dictcomp(m: Any, e: ast.DictComp, hint: str | None) -> V:
+    h = getattr(m.world, "dictcomp_hook", None)
+    if h is not None:
+        r = h(m, e, hint)
+        if r is not None:
+            return r
     raise EngineError("dict comprehension (needs an area hook)")
 
 
